@@ -13,6 +13,10 @@ impl<'a> Paseto<'a, V2, Public> {
         footer: (impl Into<Option<Footer<'a>>> + Copy),
     ) -> Result<String, PasetoError> {
         let decoded_payload = Self::parse_raw_token(signature, footer, &V2::default(), &Public::default())?;
+        //the decoded payload must at least hold the signature
+        if decoded_payload.len() < ed25519_dalek::SIGNATURE_LENGTH {
+            return Err(PasetoError::IncorrectSize);
+        }
 
         let verifying_key: VerifyingKey = VerifyingKey::from_bytes(<&[u8; 32]>::try_from(public_key.as_ref())?)?;
 
